@@ -4,6 +4,7 @@ package smt
 
 import (
 	"fmt"
+	"sort"
 	"strings"
 )
 
@@ -101,6 +102,8 @@ type Ctx struct {
 	True  *Term
 	False *Term
 	ivals map[int]ival
+	exMemo map[[3]int]*Term
+	kz     map[int]uint64
 }
 
 type FunDecl struct {
@@ -225,6 +228,9 @@ func (c *Ctx) Add(a, b *Term) *Term {
 	if b.IsConst() && a.Op == OpSub && a.Args[1].IsConst() {
 		return c.Add(a.Args[0], c.Const(b.Val-a.Args[1].Val, w))
 	}
+	if !a.IsConst() && !b.IsConst() && a.ID > b.ID {
+		a, b = b, a
+	}
 	return c.bin(OpAdd, a, b)
 }
 
@@ -270,6 +276,9 @@ func (c *Ctx) Mul(a, b *Term) *Term {
 		if b.Val == 1 {
 			return a
 		}
+	}
+	if !a.IsConst() && !b.IsConst() && a.ID > b.ID {
+		a, b = b, a
 	}
 	return c.bin(OpMul, a, b)
 }
@@ -346,28 +355,159 @@ func (c *Ctx) And(a, b *Term) *Term {
 		if a.Op == OpZExt && (b.Val&mask(a.Args[0].W())) == mask(a.Args[0].W()) {
 			return a
 		}
+		// (x ^ y) & m = (x & m) ^ (y & m): push constant masks to the leaves so that masking commutes with xor
+		if a.Op == OpXor {
+			return c.Xor(c.And(a.Args[0], b), c.And(a.Args[1], b))
+		}
+		// bits cleared by the mask are already known to be zero
+		if kz := c.knownZero(a); (^b.Val)&mask(w)&^kz == 0 {
+			return a
+		}
+		// x & (2^k-1) where x is known to lie in [0, 2^k-1]
+		if b.Val&(b.Val+1) == 0 {
+			if ia := c.interval(a); ia.ok && ia.lo >= 0 && uint64(ia.hi) <= b.Val {
+				return a
+			}
+		}
 	}
 	if a == b {
 		return a
 	}
+	if !a.IsConst() && !b.IsConst() && a.ID > b.ID {
+		a, b = b, a
+	}
 	return c.bin(OpAnd, a, b)
 }
 
-// shlConcat recognises (zext(x) << k) op zext(y) with width(y) <= k (op = | or +) and builds zext(concat(x, y)).
+type fld struct {
+	off int
+	t   *Term
+}
+
+// fields describes t as a set of non-overlapping placed sub-terms with zero bits elsewhere, if t is built from
+// zero-extensions, left shifts by constants, concatenations and or/add of disjoint such pieces.
+func (c *Ctx) fields(t *Term, depth int) ([]fld, bool) {
+	if depth > 12 {
+		return nil, false
+	}
+	switch t.Op {
+	case OpZExt:
+		in, ok := c.fields(t.Args[0], depth+1)
+		if ok {
+			return in, true
+		}
+		return []fld{{0, t.Args[0]}}, true
+	case OpShl:
+		if !t.Args[1].IsConst() {
+			return nil, false
+		}
+		k := int(t.Args[1].Val)
+		in, ok := c.fields(t.Args[0], depth+1)
+		if !ok {
+			return nil, false
+		}
+		var out []fld
+		for _, f := range in {
+			if f.off+k+f.t.W() > t.W() {
+				return nil, false
+			}
+			out = append(out, fld{f.off + k, f.t})
+		}
+		return out, true
+	case OpConcat:
+		lo, ok1 := c.fields(t.Args[1], depth+1)
+		if !ok1 {
+			lo = []fld{{0, t.Args[1]}}
+		}
+		hi, ok2 := c.fields(t.Args[0], depth+1)
+		if !ok2 {
+			hi = []fld{{0, t.Args[0]}}
+		}
+		out := append([]fld{}, lo...)
+		for _, f := range hi {
+			out = append(out, fld{f.off + t.Args[1].W(), f.t})
+		}
+		return out, true
+	case OpOr, OpAdd:
+		a, ok1 := c.fields(t.Args[0], depth+1)
+		b, ok2 := c.fields(t.Args[1], depth+1)
+		if !ok1 || !ok2 {
+			return nil, false
+		}
+		out := append(append([]fld{}, a...), b...)
+		if !disjoint(out) {
+			return nil, false
+		}
+		return out, true
+	case OpConst:
+		if t.Val == 0 {
+			return []fld{}, true
+		}
+	}
+	return nil, false
+}
+
+func disjoint(fs []fld) bool {
+	sort.Slice(fs, func(i, j int) bool { return fs[i].off < fs[j].off })
+	for i := 1; i < len(fs); i++ {
+		if fs[i-1].off+fs[i-1].t.W() > fs[i].off {
+			return false
+		}
+	}
+	return true
+}
+
+// fromFields rebuilds the canonical term (zero-extended concatenation) of width w.
+func (c *Ctx) fromFields(fs []fld, w int) *Term {
+	sort.Slice(fs, func(i, j int) bool { return fs[i].off < fs[j].off })
+	var r *Term
+	pos := 0
+	for _, f := range fs {
+		if f.off > pos {
+			z := c.Const(0, f.off-pos)
+			if r == nil {
+				r = z
+			} else {
+				r = c.Concat(z, r)
+			}
+			pos = f.off
+		}
+		if r == nil {
+			r = f.t
+		} else {
+			r = c.Concat(f.t, r)
+		}
+		pos += f.t.W()
+	}
+	if r == nil {
+		return c.Const(0, w)
+	}
+	return c.ZExt(r, w)
+}
+
+// shlConcat: or/add of disjoint placed pieces becomes a canonical concatenation.
 func (c *Ctx) shlConcat(a, b *Term) *Term {
-	if a.Op != OpShl || !a.Args[1].IsConst() {
-		a, b = b, a
-	}
-	if a.Op != OpShl || !a.Args[1].IsConst() || a.Args[0].Op != OpZExt || b.Op != OpZExt {
+	if a.IsConst() || b.IsConst() {
 		return nil
 	}
-	w := a.W()
-	k := int(a.Args[1].Val)
-	x, y := a.Args[0].Args[0], b.Args[0]
-	if y.W() > k || x.W()+k > w || x.W()+k > 64 {
+	fa, ok := c.fields(a, 0)
+	if !ok || len(fa) == 0 {
 		return nil
 	}
-	return c.ZExt(c.Concat(x, c.ZExt(y, k)), w)
+	fb, ok := c.fields(b, 0)
+	if !ok || len(fb) == 0 {
+		return nil
+	}
+	all := append(append([]fld{}, fa...), fb...)
+	if !disjoint(all) {
+		return nil
+	}
+	for _, f := range all {
+		if f.off+f.t.W() > a.W() {
+			return nil
+		}
+	}
+	return c.fromFields(all, a.W())
 }
 
 func (c *Ctx) Or(a, b *Term) *Term {
@@ -392,41 +532,75 @@ func (c *Ctx) Or(a, b *Term) *Term {
 	if a == b {
 		return a
 	}
+	if !a.IsConst() && !b.IsConst() && a.ID > b.ID {
+		a, b = b, a
+	}
 	return c.bin(OpOr, a, b)
 }
 
+// Xor builds a canonical form: the operand multiset is flattened, duplicates cancel, constants fold, and the
+// remaining leaves are combined left to right in ascending term-id order. Syntactically different but
+// AC-equivalent xor expressions therefore become the same term.
 func (c *Ctx) Xor(a, b *Term) *Term {
 	w := a.W()
 	if a.IsConst() && b.IsConst() {
 		return c.Const(a.Val^b.Val, w)
 	}
-	if a.IsConst() {
-		a, b = b, a
-	}
-	if b.IsConst() && b.Val == 0 {
-		return a
-	}
 	if a == b {
 		return c.Const(0, w)
 	}
-	// (x ^ y) ^ y = x
-	if a.Op == OpXor {
-		if a.Args[0] == b {
-			return a.Args[1]
+	if a.Op != OpXor && b.Op != OpXor {
+		if a.IsConst() {
+			a, b = b, a
 		}
-		if a.Args[1] == b {
-			return a.Args[0]
+		if b.IsConst() {
+			if b.Val == 0 {
+				return a
+			}
+			return c.bin(OpXor, a, b)
 		}
+		if a.ID > b.ID {
+			a, b = b, a
+		}
+		return c.bin(OpXor, a, b)
 	}
-	if b.Op == OpXor {
-		if b.Args[0] == a {
-			return b.Args[1]
+	var leaves []*Term
+	var k uint64
+	var collect func(t *Term)
+	collect = func(t *Term) {
+		for t.Op == OpXor {
+			collect(t.Args[1])
+			t = t.Args[0]
 		}
-		if b.Args[1] == a {
-			return b.Args[0]
+		if t.IsConst() {
+			k ^= t.Val
+			return
 		}
+		leaves = append(leaves, t)
 	}
-	return c.bin(OpXor, a, b)
+	collect(a)
+	collect(b)
+	sort.Slice(leaves, func(i, j int) bool { return leaves[i].ID < leaves[j].ID })
+	var out []*Term
+	for i := 0; i < len(leaves); i++ {
+		if i+1 < len(leaves) && leaves[i] == leaves[i+1] {
+			i++
+			continue
+		}
+		out = append(out, leaves[i])
+	}
+	k &= mask(w)
+	if len(out) == 0 {
+		return c.Const(k, w)
+	}
+	r := out[0]
+	for _, t := range out[1:] {
+		r = c.bin(OpXor, r, t)
+	}
+	if k != 0 {
+		r = c.bin(OpXor, r, c.Const(k, w))
+	}
+	return r
 }
 
 func (c *Ctx) Not(a *Term) *Term {
@@ -435,6 +609,10 @@ func (c *Ctx) Not(a *Term) *Term {
 	}
 	if a.Op == OpNot {
 		return a.Args[0]
+	}
+	// ~(x - 1) = -x
+	if a.Op == OpAdd && a.Args[1].IsConst() && a.Args[1].Val == mask(a.W()) {
+		return c.Neg(a.Args[0])
 	}
 	return c.mk(&Term{Op: OpNot, S: a.S, Args: []*Term{a}})
 }
@@ -459,6 +637,13 @@ func (c *Ctx) Shl(a, b *Term) *Term {
 		if a.IsConst() {
 			return c.Const(a.Val<<b.Val, w)
 		}
+		if a.Op == OpShl && a.Args[1].IsConst() {
+			return c.Shl(a.Args[0], c.Const(a.Args[1].Val+b.Val, w))
+		}
+		// zext(x) << k with room for x: canonical concatenation with k zero bits
+		if a.Op == OpZExt && a.Args[0].W()+int(b.Val) <= w {
+			return c.ZExt(c.Concat(a.Args[0], c.Const(0, int(b.Val))), w)
+		}
 	}
 	if a.IsConst() && a.Val == 0 {
 		return a
@@ -476,6 +661,9 @@ func (c *Ctx) LShr(a, b *Term) *Term {
 		}
 		if a.IsConst() {
 			return c.Const(a.Val>>b.Val, w)
+		}
+		if a.Op == OpLShr && a.Args[1].IsConst() {
+			return c.LShr(a.Args[0], c.Const(a.Args[1].Val+b.Val, w))
 		}
 	}
 	if a.IsConst() && a.Val == 0 {
@@ -512,6 +700,9 @@ func (c *Ctx) Concat(hi, lo *Term) *Term {
 	if hi.IsConst() && hi.Val == 0 {
 		return c.ZExt(lo, w)
 	}
+	if hi.Op == OpConcat { // canonical right-nested form
+		return c.Concat(hi.Args[0], c.Concat(hi.Args[1], lo))
+	}
 	// concat(extract(x,h,m+1), extract(x,m,l)) = extract(x,h,l)
 	if hi.Op == OpExtract && lo.Op == OpExtract && hi.Args[0] == lo.Args[0] && hi.Lo == lo.Hi+1 {
 		return c.Extract(hi.Args[0], hi.Hi, lo.Lo)
@@ -520,6 +711,25 @@ func (c *Ctx) Concat(hi, lo *Term) *Term {
 }
 
 func (c *Ctx) Extract(a *Term, hi, lo int) *Term {
+	if lo == 0 && hi-lo+1 == a.W() {
+		return a
+	}
+	if a.Op == OpConst || a.Op == OpVar {
+		return c.extract1(a, hi, lo)
+	}
+	key := [3]int{a.ID, hi, lo}
+	if c.exMemo == nil {
+		c.exMemo = map[[3]int]*Term{}
+	}
+	if r, ok := c.exMemo[key]; ok {
+		return r
+	}
+	r := c.extract1(a, hi, lo)
+	c.exMemo[key] = r
+	return r
+}
+
+func (c *Ctx) extract1(a *Term, hi, lo int) *Term {
 	w := hi - lo + 1
 	if lo == 0 && w == a.W() {
 		return a
@@ -775,6 +985,30 @@ func (c *Ctx) cmp(op Op, a, b *Term) *Term {
 	}
 	if a == b {
 		return c.Bool(op == OpUle || op == OpSle)
+	}
+	if w < 62 || true {
+		ia, ib := c.interval(a), c.interval(b)
+		if ia.ok && ib.ok {
+			signedOK := op == OpSlt || op == OpSle
+			if signedOK || (ia.lo >= 0 && ib.lo >= 0) {
+				switch op {
+				case OpUlt, OpSlt:
+					if ia.hi < ib.lo {
+						return c.True
+					}
+					if ia.lo >= ib.hi {
+						return c.False
+					}
+				case OpUle, OpSle:
+					if ia.hi <= ib.lo {
+						return c.True
+					}
+					if ia.lo > ib.hi {
+						return c.False
+					}
+				}
+			}
+		}
 	}
 	switch op {
 	case OpUlt:
@@ -1263,13 +1497,33 @@ func (c *Ctx) interval1(t *Term) ival {
 			return ival{0, b.lo - 1, true}
 		}
 	case OpAnd:
+		best := int64(-1)
 		for _, x := range t.Args {
 			a := c.interval(x)
-			if a.ok && a.lo >= 0 {
-				return ival{0, a.hi, true}
+			if a.ok && a.lo >= 0 && (best < 0 || a.hi < best) {
+				best = a.hi
 			}
 		}
+		if best >= 0 {
+			return ival{0, best, true}
+		}
+	case OpXor, OpOr:
+		a, b := c.interval(t.Args[0]), c.interval(t.Args[1])
+		if a.ok && b.ok && a.lo >= 0 && b.lo >= 0 {
+			m := a.hi
+			if b.hi > m {
+				m = b.hi
+			}
+			n := 0
+			for (int64(1)<<uint(n))-1 < m {
+				n++
+			}
+			return ival{0, int64(1)<<uint(n) - 1, true}
+		}
 	case OpLShr:
+		if k, ok := t.Args[1], t.Args[1].IsConst(); ok && k.Val > 0 && k.Val < uint64(w) && w-int(k.Val) < 62 {
+			return ival{0, int64(1)<<uint(w-int(k.Val)) - 1, true}
+		}
 		a := c.interval(t.Args[0])
 		if a.ok && a.lo >= 0 {
 			return ival{0, a.hi, true}
@@ -1336,4 +1590,131 @@ func (c *Ctx) narrowDiv(op Op, a, b *Term) *Term {
 		return c.ZExt(r, w)
 	}
 	return c.SExt(r, w)
+}
+
+// Diff descends into two terms of equal shape and returns the smallest pair of sub-terms at which they differ.
+func Diff(a, b *Term) (*Term, *Term) {
+	for {
+		if a == b {
+			return nil, nil
+		}
+		if a.Op == OpXor && b.Op == OpXor {
+			la, lb := xorLeaves(a), xorLeaves(b)
+			inB := map[int]bool{}
+			for _, t := range lb {
+				inB[t.ID] = true
+			}
+			inA := map[int]bool{}
+			for _, t := range la {
+				inA[t.ID] = true
+			}
+			var ra, rb []*Term
+			for _, t := range la {
+				if !inB[t.ID] {
+					ra = append(ra, t)
+				}
+			}
+			for _, t := range lb {
+				if !inA[t.ID] {
+					rb = append(rb, t)
+				}
+			}
+			if len(ra) == 1 && len(rb) == 1 {
+				a, b = ra[0], rb[0]
+				continue
+			}
+			if len(ra) > 0 && len(rb) > 0 {
+				// several leaves differ: try to pair leaves of equal shape
+				for _, x := range ra {
+					for _, y := range rb {
+						if x.Op == y.Op && x.Op != OpVar && len(x.Args) == len(y.Args) {
+							return Diff(x, y)
+						}
+					}
+				}
+				return ra[0], rb[0]
+			}
+			return a, b
+		}
+		if a.Op != b.Op || len(a.Args) != len(b.Args) || a.S != b.S || a.Name != b.Name || a.Hi != b.Hi || a.Lo != b.Lo || len(a.Args) == 0 {
+			return a, b
+		}
+		var da, db *Term
+		n := 0
+		for i := range a.Args {
+			if a.Args[i] != b.Args[i] {
+				n++
+				if da == nil {
+					da, db = a.Args[i], b.Args[i]
+				}
+			}
+		}
+		if n != 1 {
+			// several children differ: report the first differing child pair's own diff if it is deep, else this level
+			x, y := Diff(da, db)
+			if x != nil {
+				return x, y
+			}
+			return a, b
+		}
+		a, b = da, db
+	}
+}
+
+func xorLeaves(t *Term) []*Term {
+	var out []*Term
+	for t.Op == OpXor {
+		out = append(out, xorLeaves(t.Args[1])...)
+		t = t.Args[0]
+	}
+	return append(out, t)
+}
+
+// knownZero returns a mask of bit positions of t that are certainly 0.
+func (c *Ctx) knownZero(t *Term) uint64 {
+	if c.kz == nil {
+		c.kz = map[int]uint64{}
+	}
+	if v, ok := c.kz[t.ID]; ok {
+		return v
+	}
+	w := t.S.W
+	var r uint64
+	if w > 0 && !t.S.IsArray() {
+		m := mask(w)
+		switch t.Op {
+		case OpConst:
+			r = ^t.Val & m
+		case OpZExt:
+			iw := t.Args[0].W()
+			r = (m &^ mask(iw)) | c.knownZero(t.Args[0])
+		case OpAnd:
+			r = c.knownZero(t.Args[0]) | c.knownZero(t.Args[1])
+		case OpOr, OpXor:
+			r = c.knownZero(t.Args[0]) & c.knownZero(t.Args[1])
+		case OpShl:
+			if t.Args[1].IsConst() && t.Args[1].Val < uint64(w) {
+				k := t.Args[1].Val
+				r = ((c.knownZero(t.Args[0]) << k) | mask(int(k))) & m
+				if k == 0 {
+					r = c.knownZero(t.Args[0])
+				}
+			}
+		case OpLShr:
+			if t.Args[1].IsConst() && t.Args[1].Val < uint64(w) {
+				k := t.Args[1].Val
+				r = (c.knownZero(t.Args[0]) >> k) | (m &^ (m >> k))
+			}
+		case OpConcat:
+			lw := t.Args[1].W()
+			r = (c.knownZero(t.Args[0]) << uint(lw)) | c.knownZero(t.Args[1])
+		case OpExtract:
+			r = (c.knownZero(t.Args[0]) >> uint(t.Lo)) & m
+		case OpIte:
+			r = c.knownZero(t.Args[1]) & c.knownZero(t.Args[2])
+		}
+		r &= m
+	}
+	c.kz[t.ID] = r
+	return r
 }
